@@ -1049,9 +1049,12 @@ impl OutstationSession {
                 Some(LastValidRequest::new(seq, hash, response, None))
             }
             FragmentType::RepeatNonRead(hash, last_response) => {
-                // If we have a pending select, update the sequence number
-                if let Some(select) = &mut self.state.select {
-                    select.update_frame_id(info.id);
+                // If a SELECT is retransmitted, keep the pending select alive by updating its frame id.
+                // A retransmission of any other request must not extend the select.
+                if request.header.function == FunctionCode::Select {
+                    if let Some(select) = &mut self.state.select {
+                        select.update_frame_id(info.id);
+                    }
                 }
 
                 // per the spec, we just echo the last response
@@ -1661,6 +1664,9 @@ impl OutstationSession {
         frame_id: u32,
         controls: ControlCollection<'_>,
     ) -> Response {
+        // a new SELECT always replaces a previous one, even if the new one fails
+        self.state.select = None;
+
         // Handle each select and write the response
         let (result, len) = {
             let mut cursor = self.sol_tx_buffer.write_cursor();
